@@ -222,6 +222,24 @@ theorem ifK_admits (d : Delims) (nm args : Bytes) (w0 : Ws) (line : Nat) (hn : n
     · simp only [Grammar.isClauseOf, tgTok]; decide
     · rw [hadm rfl] at hc; cases hc
 
+/-- the compiled tree of an `if` / `unless` chain whose pieces compile: one `ifB` node -/
+theorem chainK_compile (d : Delims) (line : Nat) (nm : Bytes) (hn : nm = nmIf ∨ nm = nmUnless)
+    (c0 : Bytes) (w0 : Ws) (A0 : List Item) (rest : List Clause) (wE : Ws) (e0 : Expr)
+    (hp : parseExprSource c0 = .ok e0) (hA : Compiles d A0 0)
+    (hrest : ∀ c ∈ rest, c.Good d) (hadm : nm = nmUnless → ∀ c ∈ rest, c.cond = none) :
+    compileTokens (tokensOf d (blockSrcK nmElsif nm c0 w0 A0 rest wE) line) =
+      .ok [.ifB line ((if nm == nmIf then .expr line e0 else .notExpr line e0,
+          nodesOf d A0 (line + countNL ((tg nm c0 w0).spell d))) ::
+        ifBrs d rest (line + countNL ((tg nm c0 w0).spell d) + countNL (spell d A0)))] := by
+  obtain ⟨ast, cast, h1, h2, h3⟩ := blockK_compile d nmElsif nm c0 w0 A0 rest wE line
+    (by rcases hn with rfl | rfl <;> decide) (by rcases hn with rfl | rfl <;> decide) (by rcases hn with rfl | rfl <;> decide)
+    hA (fun c hc => (hrest c hc).2)
+    (fun c hc l => ifK_admits _ nm c0 w0 line hn c (fun h => hadm h c hc) l)
+  rw [h3, compileNode_ifK _ ast cast _ _ _ hn h1 h2 (ifTests_pairs _ rest _ (fun c hc => (hrest c hc).1))]
+  have hargs : (tgTok d nm c0 w0 line).args = c0 := rfl
+  rw [hargs, hp]
+  rfl
+
 /-- what `run` returns on the source of an `if` / `unless` chain whose pieces compile: the render of one `ifB` node -/
 theorem run_chainK_shape (P : Prims) (O : OutPrims) (cfg : Cfg) (fs : FS) (fuel : Nat) (line : Nat) (env : Env)
     (nm : Bytes) (hn : nm = nmIf ∨ nm = nmUnless)
@@ -234,14 +252,7 @@ theorem run_chainK_shape (P : Prims) (O : OutPrims) (cfg : Cfg) (fs : FS) (fuel 
           nodesOf (Delims.ofList cfg.delims) A0 (line + countNL ((tg nm c0 w0).spell (Delims.ofList cfg.delims)))) ::
         ifBrs (Delims.ofList cfg.delims) rest
           (line + countNL ((tg nm c0 w0).spell (Delims.ofList cfg.delims)) + countNL (spell (Delims.ofList cfg.delims) A0)))] env := by
-  obtain ⟨ast, cast, h1, h2, h3⟩ := blockK_compile (Delims.ofList cfg.delims) nmElsif nm c0 w0 A0 rest wE line
-    (by rcases hn with rfl | rfl <;> decide) (by rcases hn with rfl | rfl <;> decide) (by rcases hn with rfl | rfl <;> decide)
-    hA (fun c hc => (hrest c hc).2)
-    (fun c hc l => ifK_admits _ nm c0 w0 line hn c (fun h => hadm h c hc) l)
-  rw [run_spell P O cfg fs fuel _ line env hg hc, h3,
-    compileNode_ifK _ ast cast _ _ _ hn h1 h2 (ifTests_pairs _ rest _ (fun c hc => (hrest c hc).1))]
-  have hargs : (tgTok (Delims.ofList cfg.delims) nm c0 w0 line).args = c0 := rfl
-  rw [hargs, hp]
+  rw [run_spell P O cfg fs fuel _ line env hg hc, chainK_compile _ line nm hn c0 w0 A0 rest wE e0 hp hA hrest hadm]
   rfl
 
 /-! ## `case`: the value lists of the clauses -/
@@ -356,6 +367,19 @@ theorem caseK_admits (d : Delims) (args : Bytes) (w0 : Ws) (line : Nat) (c : Cla
 def caseChainSrc (s : Bytes) (w0 : Ws) (J : List Item) (rest : List Clause) (wE : Ws) : List Item :=
   blockSrcK nmWhen nmCase s w0 J rest wE
 
+/-- the compiled tree of a `case` block whose pieces compile: one `caseB` node -/
+theorem caseK_compile (d : Delims) (line : Nat) (s : Bytes) (w0 : Ws) (J : List Item) (rest : List Clause) (wE : Ws) (subj : Expr)
+    (hp : parseExprSource s = .ok subj) (hJ : Compiles d J 0) (hrest : ∀ c ∈ rest, c.GoodWhen d) :
+    compileTokens (tokensOf d (caseChainSrc s w0 J rest wE) line) =
+      .ok [.caseB line subj (caseCls d rest (line + countNL ((tg nmCase s w0).spell d) + countNL (spell d J)))] := by
+  obtain ⟨ast, cast, h1, h2, h3⟩ := blockK_compile d nmWhen nmCase s w0 J rest wE line
+    (by decide) (by decide) (by decide) hJ (fun c hc => (hrest c hc).2) (fun c _ l => caseK_admits _ s w0 line c l)
+  unfold caseChainSrc
+  rw [h3, compileNode_caseK _ ast cast _ _ _ rfl h1 h2 (caseClauses_pairs _ rest _ (fun c hc => (hrest c hc).1))]
+  have hargs : (tgTok d nmCase s w0 line).args = s := rfl
+  rw [hargs, hp]
+  rfl
+
 theorem run_caseK_shape (P : Prims) (O : OutPrims) (cfg : Cfg) (fs : FS) (fuel : Nat) (line : Nat) (env : Env)
     (s : Bytes) (w0 : Ws) (J : List Item) (rest : List Clause) (wE : Ws) (subj : Expr)
     (hg : GoodDelims (Delims.ofList cfg.delims)) (hc : Clean (Delims.ofList cfg.delims) (caseChainSrc s w0 J rest wE))
@@ -364,12 +388,5 @@ theorem run_caseK_shape (P : Prims) (O : OutPrims) (cfg : Cfg) (fs : FS) (fuel :
     run P O cfg fs fuel (spell (Delims.ofList cfg.delims) (caseChainSrc s w0 J rest wE)) line env =
       runRoot P O cfg fs fuel [.caseB line subj (caseCls (Delims.ofList cfg.delims) rest
           (line + countNL ((tg nmCase s w0).spell (Delims.ofList cfg.delims)) + countNL (spell (Delims.ofList cfg.delims) J)))] env := by
-  obtain ⟨ast, cast, h1, h2, h3⟩ := blockK_compile (Delims.ofList cfg.delims) nmWhen nmCase s w0 J rest wE line
-    (by decide) (by decide) (by decide) hJ (fun c hc => (hrest c hc).2) (fun c _ l => caseK_admits _ s w0 line c l)
-  unfold caseChainSrc
-  unfold caseChainSrc at hc
-  rw [run_spell P O cfg fs fuel _ line env hg hc, h3,
-    compileNode_caseK _ ast cast _ _ _ rfl h1 h2 (caseClauses_pairs _ rest _ (fun c hc => (hrest c hc).1))]
-  have hargs : (tgTok (Delims.ofList cfg.delims) nmCase s w0 line).args = s := rfl
-  rw [hargs, hp]
+  rw [run_spell P O cfg fs fuel _ line env hg hc, caseK_compile _ line s w0 J rest wE subj hp hJ hrest]
   rfl
